@@ -1275,6 +1275,7 @@ func genC07(b *builder, n int) {
 	genSmallNumbers(addPrint0)
 	genBigValues(addPrint0)
 	genReuse7(b, 6)
+	genFileHist(b, n/40)
 	// Go values of concrete types through Marshal -> Unmarshal into the same type
 	genGoValues(b, n/3, addPrint0)
 	// code point classes; all code points
